@@ -33,10 +33,11 @@ def atom : PyVal → Option Atom
   | .other t => some (.other t)
   | _ => none
 
-/-- The members of a set / frozenset / list / tuple / set-like object. -/
+/-- The members of a set / frozenset / list / tuple / set-like / sequence-like object. -/
 def elems : PyVal → Option (List PyVal)
   | .set xs => some xs
   | .setlike xs => some xs
+  | .seqlike xs => some xs
   | .frozenset xs => some xs
   | .list xs => some xs
   | .tuple xs => some xs
